@@ -395,6 +395,13 @@ func init() {
 				}
 			}
 			c.ruleRequires("E1b.requires", req, 3)
+			var roa []guardRow
+			for _, g := range guardTable {
+				if g.Struct == "roaClient" {
+					roa = append(roa, g)
+				}
+			}
+			c.ruleGuarded("E1b.guarded", roa, 4)
 			c.ruleDecodeProduces("E4.decode-produces", []string{"pkg/packet/rtr"}, 8)
 			c.ruleInputImmutable("E2c.input", []string{"pkg/packet/rtr"}, 4)
 			c.ruleRTRHandled()
